@@ -31,6 +31,9 @@ type rangeAggIterator struct {
 	entry    SampledEntry
 	// buffered whether last entry is buffered
 	buffered bool
+
+	// offset is the offset of the range, start and end are already shifted by it.
+	offset time.Duration
 }
 
 // RangeAggregation creates new range aggregation step iterator.
@@ -62,6 +65,11 @@ func RangeAggregation(
 		}
 	}
 
+	var offset time.Duration
+	if o := expr.Range.Offset; o != nil {
+		offset = o.Duration
+	}
+
 	return &rangeAggIterator{
 		iter: iter,
 
@@ -73,6 +81,7 @@ func RangeAggregation(
 
 		window:   map[GroupingKey]Series{},
 		interval: expr.Range.Range,
+		offset:   offset,
 	}, nil
 }
 
@@ -88,7 +97,8 @@ func (i *rangeAggIterator) Next(r *Step) bool {
 	i.fillWindow(windowStart, windowEnd)
 
 	// Aggregate the window.
-	r.Timestamp = otelstorage.NewTimestampFromTime(current)
+	// Window is shifted by offset, but the result belongs to the evaluation time.
+	r.Timestamp = otelstorage.NewTimestampFromTime(current.Add(i.offset))
 	r.Samples = r.Samples[:0]
 	for _, s := range i.window {
 		r.Samples = append(r.Samples, Sample{
